@@ -39,6 +39,9 @@ func lifted(id string) bool {
 	if id == "D20" {
 		return true // repaired in /repo (3f1a8ee): nowrap after a box with a collapsed trailing space compared again
 	}
+	if id == "D21" || id == "D22" {
+		return true // repaired in /repo (1c32c03): aligned subtrees nested in a top/bottom aligned inline box, baseline-aligned inline boxes inside one compared again
+	}
 	for _, s := range strings.Split(os.Getenv("C11_LIFT"), ",") {
 		if s == id || s == "all" {
 			return true
